@@ -848,6 +848,23 @@ func (s *sharedEntryAttributes) getHighestPrecedenceValueOfBranch() int32 {
 	return result
 }
 
+// holdsOldEntryWithPriority reports whether the branch that starts at this Entry holds a LeafEntry of the given
+// priority that the transaction leaves as it was (intent owned, neither new nor updated; an updated entry
+// may have had another priority before).
+func (s *sharedEntryAttributes) holdsOldEntryWithPriority(prio int32) bool {
+	for _, e := range s.childs.GetAll() {
+		if e.holdsOldEntryWithPriority(prio) {
+			return true
+		}
+	}
+	for le := range s.leafVariants.Items() {
+		if le.Priority() == prio && !le.GetNewFlag() && !le.GetUpdateFlag() && le.Owner() != RunningIntentName && le.Owner() != DefaultsIntentName {
+			return true
+		}
+	}
+	return false
+}
+
 // Validate is the highlevel function to perform validation.
 // it will multiplex all the different Validations that need to happen
 func (s *sharedEntryAttributes) Validate(ctx context.Context, resultChan chan<- *types.ValidationResultEntry, vCfg *config.Validation) {
@@ -1321,7 +1338,9 @@ func (s *sharedEntryAttributes) populateChoiceCaseResolvers(ctx context.Context)
 
 			if val2 != nil && v >= *val2 {
 				v = *val2
-				isNew = true
+				// the value is new to the choice unless it stems from an entry the transaction leaves as it was
+				// (an unchanged entry of the requesting intent, another intent's entry)
+				isNew = !child.holdsOldEntryWithPriority(*val2)
 			}
 			choiceResolver.SetValue(elem, v, isNew)
 		}
